@@ -163,7 +163,7 @@ def call_spec(ip, sp, args, kw):
         env = ip.bind_args(node, args, kw, sp.name)
         args = [env[a.arg] for a in node.args.args]
     args = [concrete_of(a)[1] if isinstance(a, SV) and concrete_of(a)[0] else a for a in args]
-    if not has_sym(args) and not ip.st.ghost.get('no_native_spec'):
+    if not has_sym(args) and not ip.st.ghost.get('no_native_spec') and not (getattr(sp.fn, '_symbolic_only', False) and not ip.st.ghost.get('no_invariants')):
         try:
             r = sp.fn(*args)
         except Unsupported:
@@ -369,6 +369,8 @@ def run_loop(ip, s):
     if isinstance(s, ast.For):
         it = ip.ev(s.iter)
         items = ip.meta_items(it)
+        if items is None and inv is None and isinstance(it, SymRange) and st.ghost.get('unroll_bound') is None:
+            return _lazy_range_loop(ip, s, it)
         if items is None and inv is None:
             items = _models().iter_symbolic_unrolled(ip, it) if not isinstance(it, SymRange) else _unroll_range(ip, it)
         if items is not None:
@@ -410,6 +412,30 @@ def run_loop(ip, s):
             except _Continue:
                 continue
     return _while_with_invariant(ip, s, inv)
+
+
+def _lazy_range_loop(ip, s, r):
+    """for i in range(symbolic): iterate while the path can still decide `i < stop` (like a while loop)"""
+    from .interp import _Break, _Continue
+    st = ip.st
+    if r.step != 1:
+        raise Unsupported("symbolic range with step")
+    lo, hi = lift(r.start, 'int').e, lift(r.stop, 'int').e
+    k = 0
+    while True:
+        if k > MAX_UNROLL_SYMBOLIC:
+            raise Unsupported("for over a symbolic range without invariant exceeded %d iterations" % MAX_UNROLL_SYMBOLIC)
+        if not st.branch(lo + k < hi, "range has item %d" % k):
+            ip.run_block(s.orelse)
+            return
+        ip.assign(s.target, SV(simp(lo + k), 'int'))
+        k += 1
+        try:
+            ip.run_block(s.body)
+        except _Break:
+            return
+        except _Continue:
+            continue
 
 
 def _unroll_range(ip, r):
